@@ -27,7 +27,13 @@ def direct(files, r):
 def main(ctx):
     search = mc.run(ctx, THEOREM_MODULES, project, direct,
                     "call-site ids / case table / routine names differ from the proved-correct ones",
-                    "dispatch table is inconsistent", cfg_kw=dict(matlab_safe=True, typedef_same_ns=True))
+                    "dispatch table is inconsistent", cfg_kw=dict(matlab_safe=True, typedef_same_ns=True), n=(160, 4000),
+                    extra_streams=[
+                        # same class names in different namespaces, mostly virtual (id arithmetic of virtual classes)
+                        (dict(class_pool=["Shape", "Node", "Base"], p_virtual=0.75, p_suffix=0.0, max_decls=4, max_depth=2,
+                              extra_kinds=['cls', 'cls', 'ns']), 0.4),
+                        # many free functions with non-adjacent overloads, in nested namespaces
+                        (dict(extra_kinds=['func'] * 8, max_decls=7, max_members=2), 0.4)])
     for e in ctx.known:
         w = e["witness"]
         st, out = impl_matlab([w["input"]], "mymod", [], False)
